@@ -11,6 +11,7 @@
 //       r<k>+ r<k>-  close / open the Receive gate of actor k
 //       q<k>+ q<k>-  close / open the OnReceive gate of grain k
 //       k<k>       system.Kill(actor k), waits       -> .
+//       R<k>       actor k's PID.Restart(), waits     -> .
 //       d<k>       PoisonPill to grain k, waits      -> .
 //       stop       go system.Stop(); wait until it returned or the window expired -> done | err | pending
 //       after      Tell every actor and every grain  -> one of o(k)/x (accepted / rejected) per target
@@ -264,6 +265,30 @@ func runC17(line string) string {
 				return "bad-case"
 			}
 			_ = sys.Kill(ctx, e.acts[k].name)
+		case strings.HasPrefix(op, "R"):
+			k, ok := idx(op, "R", "")
+			if !ok || k >= len(e.pids) {
+				return "bad-case"
+			}
+			// A stopped actor is removed from the actor tree by the death-watch actor asynchronously; whether
+			// the restart finds it there decides whether it is re-attached (C17-F4). Make that deterministic:
+			// restart a stopped actor only once its name no longer resolves.
+			if !e.pids[k].IsRunning() {
+				waitFor(func() bool {
+					ok, err := sys.ActorExists(ctx, e.acts[k].name)
+					return err != nil || !ok
+				}, 5*time.Second)
+			}
+			// Restart spins until the actor is idle: never wait for it unboundedly (a handler may be parked)
+			var rdone atomic.Bool
+			go func() {
+				defer func() { _ = recover() }()
+				_ = e.pids[k].Restart(ctx)
+				rdone.Store(true)
+			}()
+			if !waitFor(rdone.Load, 2*time.Second) {
+				r = "pending"
+			}
 		case strings.HasPrefix(op, "d"):
 			k, ok := idx(op, "d", "")
 			if !ok || k >= len(e.gids) {
